@@ -37,7 +37,13 @@ def _minimise(check, v, symbols, joiner=''):
         except H.Violation as w:
             return w.kind == v.kind
         return False
-    v.case['src'] = joiner.join(H.ddmin(list(symbols), fails))
+    small = joiner.join(H.ddmin(list(symbols), fails))
+    try:
+        check(small, v.case.get('sub', 'min'))
+    except H.Violation as w:
+        if w.kind == v.kind:
+            w.case['sub'] = v.case.get('sub', 'min')
+            return w
     return v
 
 
